@@ -4,6 +4,8 @@ R11.1 spans index the user's text: span-producing parsers are handed the caller'
 R11.2 flag plumbing: header key <-> LexFlags field <-> default <-> RegexBuilder setter <-> builder setter agree by name
 R11.4 no integer `as` cast in the library crates narrows (or changes signedness): numeric settings (size_limit, dfa_size_limit,
       nest_limit) travel header(u64) <-> field(usize/u32); a lossy cast puts a value in force that was not the one given
+R11.5 one definition of white space in the lex parser: every trim_*_matches uses `matches_whitespace` (or a literal), and no
+      pattern-less trim()/is_whitespace()/split_whitespace() (Unicode White_Space, a different set) is called there
 """
 from mirlib import *
 
@@ -330,8 +332,49 @@ def r114(facts, res):
     res.floor(R, 'integer `as` casts examined', n, 5)
 
 
+UNICODE_WS = ('trim', 'trim_start', 'trim_end', 'trim_left', 'trim_right', 'split_whitespace', 'is_whitespace', 'is_ascii_whitespace',
+              'trim_ascii', 'trim_ascii_start', 'trim_ascii_end', 'split_ascii_whitespace')
+
+
+def r115(facts, res):
+    """The lex parser has ONE definition of white space (Pattern_White_Space, `matches_whitespace` / the RE_WS family): wherever
+    it strips or tests blanks it uses that one.  std's pattern-less trim()/is_whitespace() use Unicode White_Space, a different
+    set (U+00A0, U+3000, ... are in it, U+200E/U+200F are not): a character of the difference at the edge of a regex or name
+    then silently joins or leaves it."""
+    R = 'R11.5'
+    n = 0
+    bad = 0
+    for b in facts.lib_bodies(['lrlex']):
+        if b.from_expansion or not b.path.startswith('lrlex::parser'):
+            continue
+        for bb, t in b.calls():
+            c = callee_of(t)
+            if c is None:
+                continue
+            p = c['path']
+            nm = c['name']
+            if nm.startswith('trim') and nm.endswith('matches') and 'core::str' in p:
+                n += 1
+                pat = (c.get('args') or [''])[0]
+                key = 'pattern:%s/%s@%s' % (strip_generics(b.path), nm, len([i for i in res.instances if i['key'].startswith('R11.5:pattern:%s/%s@' % (strip_generics(b.path), nm))]))
+                if 'matches_whitespace' in pat or pat in ('char', '&str', "&'static str") or pat.startswith('[char;') or pat.startswith('&[char'):
+                    res.ok(R, key, loc_of(b, bb), 'blanks are stripped with %s' % (pat if len(pat) < 60 else pat[-60:]))
+                else:
+                    bad += 1
+                    res.bad(R, key, loc_of(b, bb), '%s strips with the pattern %s, not with the parser\'s own white-space predicate' % (nm, pat[:80]))
+            elif nm in UNICODE_WS and ('core::str' in p or 'core::char' in p):
+                n += 1
+                bad += 1
+                res.bad(R, 'unicode-ws:%s/%s' % (strip_generics(b.path), nm), loc_of(b, bb),
+                        '`%s` classifies blanks by Unicode White_Space, the lex parser\'s separators are Pattern_White_Space (matches_whitespace): a '
+                        'character in one set but not the other (U+00A0, U+3000, U+200E, ...) at the edge of a regex or name is silently dropped or kept' % nm,
+                        {'function': b.path})
+    res.floor(R, 'blank-stripping/testing call sites in lrlex::parser', n, 5)
+
+
 def run(facts, res):
     r114(facts, res)
+    r115(facts, res)
     r113(facts, res)
     r111(facts, res)
     r112(facts, res)
